@@ -84,6 +84,29 @@ def clean_bounds(b):
              INF if (isinstance(r[1], float) and math.isnan(r[1])) else r[1]] for r in b]
 
 
+def module_state(M):
+    """repr of every mutable module-level container of the loaded cobyqa modules (state that could survive a call)"""
+    out = {}
+    for m in M.all_modules():
+        if ".tests" in m.__name__:
+            continue
+        for k, v in list(m.__dict__.items()):
+            if k.startswith("__") or k in ("DEFAULT_OPTIONS", "DEFAULT_CONSTANTS", "PRINT_OPTIONS"):
+                continue
+            if isinstance(v, (dict, list, set)):
+                try:
+                    out[f"{m.__name__.split('.', 1)[-1]}.{k}"] = (type(v).__name__, len(v), repr(sorted(map(repr, v)))[:200])
+                except Exception:
+                    out[f"{m.__name__.split('.', 1)[-1]}.{k}"] = (type(v).__name__, len(v), "")
+        # class-level mutable attributes
+        for k, v in list(m.__dict__.items()):
+            if isinstance(v, type) and getattr(v, "__module__", "") == m.__name__:
+                for a, w in list(vars(v).items()):
+                    if isinstance(w, (dict, list, set)) and not a.startswith("__"):
+                        out[f"{m.__name__.split('.', 1)[-1]}.{k}.{a}"] = (type(w).__name__, len(w), "")
+    return out
+
+
 def flt(x):
     """concrete python float of a concrete element"""
     if isinstance(x, SymFloat):
@@ -638,6 +661,7 @@ class Ctl(Harness):
 
         M.patch(TR, "__init__", tr_init)
 
+        state_before = module_state(M)
         # the call -----------------------------------------------------------
         out = dict(shape=shape, log=log, monitors=monitors, final=final, frame=frame, tol=tol, target=target,
                    cbstate=cbstate, saved=saved, options=options, x0=x0, keep=keep)
@@ -662,6 +686,9 @@ class Ctl(Harness):
                                   (TR, "get_geometry_step", orig_geo)):
                 setattr(obj, nm, orig)
         out["soc_taken"] = bool(flags.get("soc"))
+        state_after = module_state(M)
+        out["state_diff"] = sorted(k for k in set(state_before) | set(state_after)
+                                   if state_before.get(k) != state_after.get(k))
         if frame.get("tr") is not None:
             tr = frame["tr"]
             try:
@@ -983,6 +1010,8 @@ class Ctl(Harness):
 
         for nm, (arr, ref) in o.get("keep", {}).items():
             C("C11", "argument_arrays_untouched", same_nested(arr, ref), s=f"{sig}:{nm}")
+        C("C11", "no_module_or_class_level_state_survives_the_call", not o.get("state_diff"),
+          s=f"{sig}:{','.join(o.get('state_diff', []))[:80]}")
         C("C11", "x0_untouched", pt(o["x0"]) == o["saved"]["x0"])
         C("C11", "options_dict_untouched",
           set(o["options"]) == set(o["saved"]["options"]) and
